@@ -190,6 +190,10 @@ def shape_frame(cls):
 FRAME_CLASSES = ["LabelNode", "SymbolNode", "BinaryNode", "LongNode", "WordNode", "ByteNode", "PointerNode", "OpcodeNode", "IncludeIpsNode", "TableNode", "AsciiNode"]
 
 
+def set_position_cases(E):
+    return [Case(H + "set_position_contract", f"{bc[0]}:{bc[1]}", shape_setpos(bc), target=["a816.symbols.Resolver.set_position", "a816.symbols.Resolver.get_bus"]) for bc in BUS_CASES]
+
+
 def cases(E):
     cs = []
     for kind in KINDS:
@@ -197,11 +201,13 @@ def cases(E):
             cs.append(Case(H + "program_emit_contract", f"{kind},{bc[0]}:{bc[1]}", shape(kind, bc), target=[P + "emit"], replay=False, timeout_ms=40000))
     cs.append(Case(H + "program_emit_contract", "include_ips,2 blocks,lorom:1", shape("include_ips", ("lorom", "1"), 2), target=[P + "emit"], replay=False))
     cs.append(Case(H + "program_emit_contract", "include_ips,0 blocks,lorom:1", shape("include_ips", ("lorom", "1"), 0), target=[P + "emit"], replay=False))
-    for bc in BUS_CASES:
-        cs.append(Case(H + "set_position_contract", f"{bc[0]}:{bc[1]}", shape_setpos(bc), target=["a816.symbols.Resolver.set_position", "a816.symbols.Resolver.get_bus"]))
+    cs += set_position_cases(E)
     cs.append(Case(H + "program_emit_entry_contract", "fresh resolver", shape_entry, target=[P + "emit", P + "resolver_reset"], no_loop_specs=True))
     for cls in FRAME_CLASSES:
         cs.append(Case(H + "node_frame_contract", cls, shape_frame(cls), target=[N + cls + ".emit", N + cls + ".pc_after"]))
+    # "the active address mapping" by default is one of the two LIVE built-in buses: their bank sets and offsets against the textbook formulas (C04's contracts)
+    from vf.props import C04 as c04
+    cs += c04.live_bus_cases(E)
     return cs
 
 
